@@ -51,8 +51,8 @@ func runC14(c *rules.Ctx) {
 	c.BranchOn(ST, "lt(sqrtPrice, clmath.TickToSqrtPrice(sub(_,1))#0)", nil, "falling below the bucket underneath is an error (<)")
 	const RD = M + "RoundDownTickToSpacing"
 	c.BranchOn(RD, "lt(rem(tickIndex,tickSpacing), 0)", nil, "a negative remainder is made Euclidean (so the tick never moves up)")
-	c.FailsWhen(RD, "gt(_, 342000000)", "a rounded tick above the maximum is rejected", rules.GuardOpt{})
-	c.FailsWhen(RD, "lt(_, -270000000)", "a rounded tick below the minimum is rejected", rules.GuardOpt{})
+	c.FailsWhen(RD, "gt(has(sub(tickIndex,_)), 342000000)", "the *rounded* tick (tick minus remainder) above the maximum is rejected", rules.GuardOpt{})
+	c.FailsWhen(RD, "lt(has(sub(tickIndex,_)), -270000000)", "the *rounded* tick (tick minus remainder) below the minimum is rejected", rules.GuardOpt{})
 	c.Returns(RD, 0, "each(alt(tickIndex, sub(tickIndex, _)))", "the result is the tick itself or the tick minus its (non-negative) remainder", "")
 	const TS = M + "TickToSqrtPrice"
 	c.OnlyWhen(TS, "osmomath.MonotonicSqrtMut", "ge(tickIndex, -108000000)", "18-digit square root exactly for ticks in the original range")
